@@ -545,8 +545,15 @@ class CoordMatcher(WrappingMatcher):
         self._termcount = len(list(child.term_matchers()))
         self._scale = scale
 
+    def copy(self):
+        return self._replacement(self.child.copy())
+
     def _replacement(self, newchild):
-        return self.__class__(newchild, scale=self._scale)
+        m = self.__class__(newchild, scale=self._scale)
+        # The new child may have dropped exhausted term matchers; the score is
+        # still relative to the number of terms in the original tree
+        m._termcount = self._termcount
+        return m
 
     def _sqr(self, score, matching):
         # This is the "SQR" (Short Query Ranking) function used by Apple's old
